@@ -161,10 +161,12 @@ func isKVFieldLoad(v ssa.Value, name string) bool {
 }
 
 // R-C03-2
-func c03SaveContent(c *eng.Ctx, k *kvAnalysis) {
+func c03SaveContent(c *eng.Ctx, k *kvAnalysis) { c03SaveContentRule(c, k, "R-C03-2") }
+
+func c03SaveContentRule(c *eng.Ctx, k *kvAnalysis, rule string) {
 	ws := fileWriters(c)
 	if len(ws) == 0 {
-		c.Undecided("R-C03-2", nil, 0, "file writer", "no function of package db writes a file")
+		c.Undecided(rule, nil, 0, "file writer", "no function of package db writes a file")
 		return
 	}
 	schema := schemaConst(c)
@@ -176,27 +178,27 @@ func c03SaveContent(c *eng.Ctx, k *kvAnalysis) {
 			}
 			site := eng.CallStr(&call.Call)
 			want := "data = Marshal(wrapped{Version: schema const, DEK: kv.dekRaw, DB: kv.dekCipher.Encrypt(Marshal(persist{Secrets: kv.secrets}), aeadContextDB(schema const))})"
-			c.Check(isKVFieldLoad(call.Call.Args[0], "path"), "R-C03-2", f, in.Pos(), site+" [target]", "target is kv.path", "target is "+eng.ValStr(call.Call.Args[0]))
+			c.Check(isKVFieldLoad(call.Call.Args[0], "path"), rule, f, in.Pos(), site+" [target]", "target is kv.path", "target is "+eng.ValStr(call.Call.Args[0]))
 			arg, _, ok := marshalArg(call.Call.Args[1])
 			if !ok {
-				c.Undecided("R-C03-2", f, in.Pos(), site, "data argument is not directly the result of json.Marshal: "+eng.ValStr(call.Call.Args[1]))
+				c.Undecided(rule, f, in.Pos(), site, "data argument is not directly the result of json.Marshal: "+eng.ValStr(call.Call.Args[1]))
 				return
 			}
 			fields, al, ok := eng.LiteralFields(eng.Origin(arg))
 			if !ok || al == nil || !eng.IsNamed(al.Type(), "db", "wrapped") {
-				c.Undecided("R-C03-2", f, in.Pos(), site, "marshalled value is not a db.wrapped literal: "+eng.ValStr(arg))
+				c.Undecided(rule, f, in.Pos(), site, "marshalled value is not a db.wrapped literal: "+eng.ValStr(arg))
 				return
 			}
 			// Version
 			vv, isC := eng.ConstInt(fields["Version"])
-			c.Check(fields["Version"] != nil && isC && vv == schema, "R-C03-2", f, in.Pos(), "wrapped.Version", want, "Version = "+eng.ValStr(fields["Version"]))
-			c.Check(fields["DEK"] != nil && isKVFieldLoad(fields["DEK"], "dekRaw"), "R-C03-2", f, in.Pos(), "wrapped.DEK", want, "DEK = "+eng.ValStr(fields["DEK"]))
+			c.Check(fields["Version"] != nil && isC && vv == schema, rule, f, in.Pos(), "wrapped.Version", want, "Version = "+eng.ValStr(fields["Version"]))
+			c.Check(fields["DEK"] != nil && isKVFieldLoad(fields["DEK"], "dekRaw"), rule, f, in.Pos(), "wrapped.DEK", want, "DEK = "+eng.ValStr(fields["DEK"]))
 			enc, idx := eng.TupleCall(fields["DB"])
 			if enc == nil || idx != 0 || !enc.Call.IsInvoke() || enc.Call.Method.Name() != "Encrypt" || !isKVFieldLoad(enc.Call.Value, "dekCipher") {
-				c.Bad("R-C03-2", f, in.Pos(), "wrapped.DB", want, "DB = "+eng.ValStr(fields["DB"]))
+				c.Bad(rule, f, in.Pos(), "wrapped.DB", want, "DB = "+eng.ValStr(fields["DB"]))
 				return
 			}
-			c.Ok("R-C03-2", f, in.Pos(), "wrapped.DB", "result of kv.dekCipher.Encrypt")
+			c.Ok(rule, f, in.Pos(), "wrapped.DB", "result of kv.dekCipher.Encrypt")
 			// context
 			ctxCall, _ := eng.TupleCall(enc.Call.Args[1])
 			okCtx := ctxCall != nil && eng.CalleeIs(&ctxCall.Call, "db", "aeadContextDB")
@@ -204,22 +206,22 @@ func c03SaveContent(c *eng.Ctx, k *kvAnalysis) {
 				cv, isC := eng.ConstInt(ctxCall.Call.Args[0])
 				okCtx = isC && cv == schema
 			}
-			c.Check(okCtx, "R-C03-2", f, in.Pos(), "Encrypt associated data", "aeadContextDB(schema const)", "associated data = "+eng.ValStr(enc.Call.Args[1]))
+			c.Check(okCtx, rule, f, in.Pos(), "Encrypt associated data", "aeadContextDB(schema const)", "associated data = "+eng.ValStr(enc.Call.Args[1]))
 			// plaintext
 			parg, _, ok := marshalArg(enc.Call.Args[0])
 			if !ok {
-				c.Bad("R-C03-2", f, in.Pos(), "Encrypt plaintext", want, "plaintext = "+eng.ValStr(enc.Call.Args[0]))
+				c.Bad(rule, f, in.Pos(), "Encrypt plaintext", want, "plaintext = "+eng.ValStr(enc.Call.Args[0]))
 				return
 			}
 			pf, pal, ok := eng.LiteralFields(eng.Origin(parg))
 			if !ok || pal == nil || !eng.IsNamed(pal.Type(), "db", "persist") {
-				c.Bad("R-C03-2", f, in.Pos(), "Encrypt plaintext", want, "marshalled value is "+eng.ValStr(parg))
+				c.Bad(rule, f, in.Pos(), "Encrypt plaintext", want, "marshalled value is "+eng.ValStr(parg))
 				return
 			}
-			c.Check(pf["Secrets"] != nil && isKVFieldLoad(pf["Secrets"], "secrets"), "R-C03-2", f, in.Pos(), "persist.Secrets", "the live map kv.secrets itself (not a copy or a filtered view)", "Secrets = "+eng.ValStr(pf["Secrets"]))
+			c.Check(pf["Secrets"] != nil && isKVFieldLoad(pf["Secrets"], "secrets"), rule, f, in.Pos(), "persist.Secrets", "the live map kv.secrets itself (not a copy or a filtered view)", "Secrets = "+eng.ValStr(pf["Secrets"]))
 		})
 	}
-	c.Floor("R-C03-2", 6)
+	c.Floor(rule, 6)
 }
 
 func schemaConst(c *eng.Ctx) int64 {
